@@ -52,7 +52,7 @@ objs=[grad(grad(f))[0,1]*v.dx(0)*dx + grad(grad(g))[1,0,1]*v*dx]'''),
 
 
 def run(v, tier, seed, g):
-    cases = list(corpus.PINNED) + EXTRA + corpus.random_cases(seed, 30 if tier == "quick" else 500)
+    cases = list(corpus.PINNED) + EXTRA + corpus.random_cases(seed, 90 if tier == "quick" else 800)
     res = valprops.run_oracle(cases, seed)
     st = valprops.account(v, res, "c01", types={"cell"})
     if not g["ok"] and not v.violations:
